@@ -1,7 +1,9 @@
 package c01
 
 import (
+	"database/sql/driver"
 	"fmt"
+	"reflect"
 	"regexp"
 	"strconv"
 	"strings"
@@ -229,6 +231,16 @@ func (g *gen) checkStatement(sqlText string, vars []interface{}, numbered bool, 
 		for _, t := range phs {
 			if t.text != "?" {
 				add("placeholder %s under the positional dialect", t.text)
+			}
+		}
+	}
+	// slices expand to one placeholder per element: no bound value may itself be a slice
+	// (byte slices are the one value kind that is bound whole)
+	for i, v := range vars {
+		rv := reflect.ValueOf(v)
+		if rv.IsValid() && (rv.Kind() == reflect.Slice || rv.Kind() == reflect.Array) && rv.Type().Elem() != reflect.TypeOf(uint8(0)) {
+			if _, isValuer := v.(driver.Valuer); !isValuer {
+				add("bound value #%d is a whole %T: the slice was not expanded to one placeholder per element", i+1, v)
 			}
 		}
 	}
